@@ -147,7 +147,7 @@ Proof.
   intro H.
   assert (Hho : match ho with Some (_, Ok _, true) => False | _ => True end).
   { subst ho. destruct (a_kind a); auto. destruct s as [t ch].
-    destruct (_ =? 0)%Z; auto. destruct (t_wrote_header t); auto.
+    destruct (_ =? 0)%Z; auto. destruct (t_wrote_header t); auto. destruct (negb (has_body t)); auto.
     match goal with |- context [task_write cap lower c r disc ?s0 ?d] =>
       destruct (task_write cap lower c r disc s0 d) as [[t1 ch1] [u|e]] end; auto.
     destruct (write_soon disc ch1 _) as [ch2 [u2|e2]]; auto. }
